@@ -7,6 +7,7 @@ package codegen
 
 import (
 	"go/ast"
+	"go/importer"
 	goparser "go/parser"
 	gotoken "go/token"
 	gotypes "go/types"
@@ -14,10 +15,36 @@ import (
 	"path/filepath"
 	"sort"
 	"strings"
+	"sync"
 
 	"github.com/dcaiafa/lox/internal/lexergen/mode"
 	"github.com/dcaiafa/lox/internal/parsergen/lr1"
 )
+
+// A process-wide source importer for standard-library imports (not safe for
+// concurrent use, hence the lock).
+type verifLockedImporter struct {
+	mu  sync.Mutex
+	imp gotypes.Importer
+}
+
+func (l *verifLockedImporter) Import(path string) (*gotypes.Package, error) {
+	l.mu.Lock()
+	defer l.mu.Unlock()
+	return l.imp.Import(path)
+}
+
+var (
+	verifImpOnce sync.Once
+	verifImp     *verifLockedImporter
+)
+
+func verifDefaultImporter() gotypes.Importer {
+	verifImpOnce.Do(func() {
+		verifImp = &verifLockedImporter{imp: importer.ForCompiler(gotoken.NewFileSet(), "source", nil)}
+	})
+	return verifImp
+}
 
 // VerifResult exposes the objects the generated files were emitted from.
 type VerifResult struct {
@@ -196,6 +223,10 @@ func (c *context) verifParseGo(pkgPath string, imp gotypes.Importer) bool {
 
 	c.GoPackagePath = pkgPath
 
+	if imp == nil {
+		// generated files may import standard packages (a template is free to)
+		imp = verifDefaultImporter()
+	}
 	hadErr := false
 	tcfg := &gotypes.Config{
 		Importer: imp,
